@@ -27,6 +27,12 @@ FAULT = [  # (kind, pad, cap, fault kind, kmax, programs)  - post-fault operatio
     ('cq', 4, 0, 'ctor', 5, ['push:11,push:12', 'push:21,try_pop,try_pop,try_pop']),
     ('bq', 132, 3, 'alloc', 4, ['try_push:11,try_push:12,try_push:13,try_pop,try_pop,try_pop,try_pop']),
     ('bq', 132, 3, 'ctor', 4, ['try_push:11,try_push:12', 'try_push:21,try_pop,try_pop,try_pop']),
+    # a throwing element constructor leaves an invalid entry behind; the lane must keep working when later tickets of the same lane (ticket + 8) are
+    # pushed and popped - with 1 item per page every invalid entry sits in the last slot of its page, with 2 items per page those of tickets 8..15
+    ('cq', 132, 0, 'ctor', 4, [','.join('push:%d' % (100 + i) for i in range(12)) + ',' + ','.join(['try_pop'] * 13)]),
+    ('bq', 132, 14, 'ctor', 3, [','.join('try_push:%d' % (100 + i) for i in range(12)) + ',' + ','.join(['try_pop'] * 13)]),
+    ('cq', 60, 0, 'ctor', 12, [','.join('push:%d' % (100 + i) for i in range(26)) + ',' + ','.join(['try_pop'] * 27)]),
+    ('cq', 132, 0, 'ctor', 3, [','.join('push:%d' % (100 + i) for i in range(6)), ','.join('push:%d' % (200 + i) for i in range(6)), ','.join(['try_pop'] * 13)]),
 ]
 
 
